@@ -19,6 +19,22 @@ def env_of(spec, point):
     return env
 
 
+def amplification(spec, point):
+    """largest error scale (trees.scales) of any state update or sensor reading at `point`: above ~1e8 the float64 results
+    of BOTH configurations are only good to 1e-10*that, so a direct on-vs-off comparison at 1e-7 says nothing; each side is
+    still compared with the reference at its own, conditioning-aware tolerance."""
+    with mp.workdps(30):
+        env = env_of(spec, point)
+        worst = mp.mpf(1)
+        for t in list(spec["trees"].values()) + [t for rs in spec["sensors"].values() for t in rs.values()]:
+            try:
+                s_, ds_ = T.scales(t, env)
+            except Exception:
+                continue
+            worst = max(worst, s_, ds_)
+        return float(worst)
+
+
 def ref_model(spec, point):
     """{state name: (value mpf, scale float)}"""
     with mp.workdps(DPS):
